@@ -32,6 +32,14 @@ def c01(tier, seed):
         S("PaddyRiceGDD", "Paddy", seed=seed + 16, regime="monsoon", fallow={"bunds": True, "z_bund": 0.15, "bund_water": 60}, off_season=True, lead=30,
           iwc={"value": ["SAT", "SAT"], "depth_layer": [1, 2]}),
     ]
+    # a model whose profile has the same number of compartments and the same depth as that of a model run BEFORE it in the same process, but another
+    # split of the surface compartments (nothing computed for one profile may be reused for the other)
+    b = S("Tomato", seed=seed + 17, soil_spec={"type": "SandyLoam", "kw": {"dz": [0.05, 0.05] + [0.1] * 9 + [0.2]}})
+    b["_prelude"] = {"soil": {"type": "SandyLoam"}}
+    scs.append(b)
+    b = S("Potato", seed=seed + 18, soil_spec={"type": "Clay", "kw": {"dz": [0.2, 0.2, 0.1, 0.1, 0.1, 0.1, 0.1, 0.1, 0.1, 0.1]}}, events=L.storm_events(y, (4, 20), (60, 90)))
+    b["_prelude"] = {"soil": {"type": "Clay", "kw": {"dz": [0.1] * 8 + [0.2, 0.2]}}}
+    scs.append(b)
     if tier == "thorough":
         scs += L.diverse(rnd, 240, focus="no_restrictive") + L.hard_cases(rnd)
     else:
